@@ -14,7 +14,7 @@ import (
 )
 
 const c12Schema = `
-type Query { a: Int s: String o: Obj l: [Obj] m1(x: String): String m2(b: Boolean): String us: [U] is: [I] }
+type Query { a: Int s: String o: Obj l: [Obj] m1(x: String): String m2(b: Boolean): String us: [U] is: [I] z: Int }
 type Obj { a: Int s: String o: Obj m1(x: String): String m2(b: Boolean): String }
 interface I { x: Int }
 type A implements I { x: Int a: Int }
@@ -76,6 +76,7 @@ var c12Requests = []struct {
 	{`{is{__typename x}}`, false},
 	{`{__type(name:"Obj"){name fields{name}}}`, false},
 	{`{l{a m2(b:false)} s}`, false},
+	{`{z a}`, false}, // z has no Go member behind it: the failing-binding path
 }
 
 func c12Resolve(root *ggql.Root, k int, v string) map[string]interface{} {
@@ -107,7 +108,7 @@ func c12Run(threads, perThread int, kinds []int) {
 	want := make([]map[string]interface{}, n)
 	for k, r := range reqs {
 		want[k] = c12Resolve(c12NewRoot(d), r, v)
-		sym.Assert(want[k]["err"] == nil && want[k]["parse"] == nil, "request resolves alone")
+		sym.Assert((want[k]["err"] == nil || r == 8) && want[k]["parse"] == nil, "request resolves alone")
 	}
 	// together on one cold root
 	root := c12NewRoot(d)
@@ -160,4 +161,12 @@ func C12_three() {
 	}
 	sym.Preemptions(1)
 	c12Run(3, 1, []int{0, 1})
+}
+
+// C12_unbound: two goroutines on a cold root where one or both select a
+// schema field that has no Go member behind it (the binding fails): the
+// failure is reported to each request and nothing is left locked.
+func C12_unbound() {
+	sym.Preemptions(2) // (the failing binding is retried on every use: many more lock operations per request)
+	c12Run(2, 1, []int{8})
 }
